@@ -3,6 +3,7 @@
 //! Usage: nsverif <mode> [args...]
 
 mod bump;
+mod f64ops;
 mod frontend;
 mod lang;
 mod limits;
@@ -26,6 +27,7 @@ fn main() -> ExitCode {
             ExitCode::SUCCESS
         }
         "bump" => bump::run(&args[2], &args[3]),
+        "f64" => f64ops::run(&args[2], &args[3]),
         "lang" => lang::run(&args[2..]),
         "limits" => limits::run(&args[2..]),
         "pipeline" => pipeline::run(&args[2..]),
